@@ -380,18 +380,23 @@ def translate():
         fail("Kauri.fit no longer creates Y and Z before its loop", kfit)
     D.append(("kauri_fit_tail", "list cstmt", lst(tr_stmts(tail, kctx))))
     # ---- method resolution: who defines what
-    over, bases = [], []
+    # canonical order (classes by name, methods by name): moving definitions around in the sources changes nothing here;
+    # the order of the bases of a class is kept, it is the method-resolution order
+    table = {}
     for key in FILES:
         for c in S[key].classes:
-            defined = [f.name for f in c.body if isinstance(f, ast.FunctionDef) and f.name in COHERENCE_METHODS]
+            if c.name in table:
+                fail(f"class {c.name} is defined twice in the estimator modules", c)
+            defined = sorted(f.name for f in c.body if isinstance(f, ast.FunctionDef) and f.name in COHERENCE_METHODS)
             bs = []
             for b in c.bases:
                 if isinstance(b, ast.Name):
                     bs.append(b.id)
                 else:
                     fail(f"base class expression of {c.name} is not a plain name", c)
-            over.append(f"({q(c.name)}, {lst([q(m) for m in defined])})")
-            bases.append(f"({q(c.name)}, {lst([q(b) for b in bs])})")
+            table[c.name] = (defined, bs)
+    over = [f"({q(n)}, {lst([q(m) for m in table[n][0]])})" for n in sorted(table)]
+    bases = [f"({q(n)}, {lst([q(b) for b in table[n][1]])})" for n in sorted(table)]
     D.append(("overrides", "override_table", lst(over)))
     D.append(("class_bases", "override_table", lst(bases)))
     # ---- text
